@@ -237,6 +237,9 @@ class EscapePolicy(InlineOnly):
                 # a small constant index into a value that was looked up in a mapping (the stored pair), guarded or not by a
                 # None test: element access of a stored tuple, not a dictionary lookup
                 return []
+            if is_const(idx) and idx[1] in (0, -1) and base[0] == "call" and base[1][0] == "attr" and base[1][2] in ("split", "rsplit", "partition", "rpartition") \
+                    and base[2]:
+                return []  # str.split(sep, ..) / partition(sep) always yield at least one part
             if _membership_known(s, base, idx):
                 return []  # `idx in base` was established on this path and nothing was removed from base since
             return ["KeyError"]
